@@ -174,4 +174,18 @@ PrioRestart ==
 DumpStep == PrintT("OUT " \o ToJson([i |-> step', a |-> act',
                                       start |-> IF step = 0 THEN Wrap - out["A"]["r"] ELSE 0]))
 DumpEdge == PrintT("EDGE " \o ToJson(View) \o "\t" \o ToJson(act') \o "\t" \o ToJson(View'))
+(***************************************************************************)
+(* `act` (the step's observed outcome) is not part of the VIEW: as a state  *)
+(* predicate an invariant over act would be evaluated only for the first     *)
+(* representative TLC finds of each view class.  The action forms below are  *)
+(* evaluated for EVERY transition TLC generates; the configurations that use *)
+(* a VIEW check these.                                                       *)
+(***************************************************************************)
+NonceUniqueA == [][NonceUnique']_vars
+OnlyOnceA == [][OnlyOnce']_vars
+CurrentAcceptedA == [][CurrentAccepted']_vars
+OldKeyRejectedA == [][OldKeyRejected']_vars
+RollsInStepA == [][RollsInStep']_vars
+PrioRestartA == [][PrioRestart']_vars
+
 =============================================================================
